@@ -59,6 +59,8 @@ def register(reg):
     ex.ctx.use_trusted('threading.Thread.start')
     ex.event(st, ('thread.start', args[0].t))
     ex.write_field(st, VRef('threading.Thread', args[0].t), 'alive', VBool(True))
+    if 'body_starts' in st.ghost:
+      st.ghost['body_starts'] = VInt(st.ghost['body_starts'].t + 1)      # ghost: number of phase bodies started
     return [(st, NONE)]
 
   def th_is_alive(ex, st, args, kwargs):
@@ -92,3 +94,20 @@ def register(reg):
     from pyvc.values import VFloat, Flt
     return [(st, VFloat(Flt.FIN(t)))]
   reg.externals['time.monotonic'] = lambda ex: __import__('pyvc.values', fromlist=['x']).VBuiltin('time.monotonic', mono)
+
+  # ---- lock / event constructors
+  from pyvc.values import VBuiltin
+
+  def mk(cls, init=None):
+    def impl(ex, st, args, kwargs):
+      ex.ctx.use_trusted('threading.' + cls)
+      o = ex.alloc(st, cls)
+      if init:
+        init(ex, st, o)
+      return [(st, o)]
+    return lambda ex: VBuiltin('threading.' + cls, impl)
+  reg.externals['threading.Lock'] = mk('lock')
+  reg.externals['threading.RLock'] = mk('rlock')
+  reg.externals['threading.Event'] = mk('event', lambda ex, st, o: ex.write_field(st, o, 'flag', VBool(False)))
+  reg.externals['cProfile.Profile'] = mk('object')
+  reg.externals['pstats.Stats'] = mk('object')
